@@ -946,6 +946,38 @@ def run(ctx):
                 cmds.append(cm)
             cases.append({'ic': ic, 'lines': lines, 'cmds': cmds, 'kind': 'address stream', 'corpus': False, 'addr': True})
 
+        # the word-literal stream (generated LAST: the streams above draw the same numbers as before): a plain literal with \\< and / or \\>
+        # -- the fast path of rstr.c -- whose occurrences OVERLAP, on lines where an occurrence that fails its boundary test is followed by one
+        # that begins inside it (aa\\> in xaaa, \\<a-a in ba-a-a, abab\\> in ababab): the scan has to try every start offset
+        for i in range(120 if ctx.quick else 2500):
+            ic = 1 if rng.chance(1, 5) else 0
+            unit, k = rng.choice([('a', 2), ('a', 3), ('ab', 2), ('a-', 2), ('é', 2), ('a ', 2), ('ba', 2), ('aA', 2) if ic else ('x', 2)])
+            lit = (unit * k).rstrip(' -') if unit[-1] in ' -' else unit * k
+            wb, we = rng.choice([(True, False), (False, True), (True, True)])
+            parts = []
+            if wb:
+                parts.append(Pat('\\<', '(?<!%s)(?=%s)' % (W, W), True, word=True))
+            parts.append(p_lit(lit, ic))
+            if we:
+                parts.append(Pat('\\>', '(?<=%s)(?!%s)' % (W, W), True, word=True))
+            pat = p_cat(*parts)
+            nl = rng.choice([1, 1, 2])
+            lines = []
+            for _ in range(nl):
+                segs = []
+                for _ in range(rng.choice([1, 2, 2, 3])):
+                    run = unit * (k + rng.below(3))
+                    if unit[-1] in ' -' and rng.chance(2, 3):
+                        run = run.rstrip(' -')
+                    segs.append(rng.choice(['', '', 'b', 'x', '-', 'é']) + run + rng.choice(['', '', 'a', 'b', '-', unit[0]]))
+                lines.append(rng.choice([' ', ' ', '-', '  ']).join(segs))
+            toks = rng.choice([[('X', 'lit', 'X')], [('<', 'lit', '<'), ('\\0', 'grp', 0), ('>', 'lit', '>')], []])
+            d = rng.choice(DELIMS)
+            for g in (True, False):
+                body = 's' + d + esc_delim(pat.nv, d) + d + esc_delim(''.join(t[0] for t in toks), d) + d + ('g' if g else '')
+                cases.append({'ic': ic, 'lines': lines, 'cmds': [{'range': (1, nl), 'text': '%' + body, 'body': body, 'pat': pat, 'toks': toks, 'g': g}],
+                              'kind': 'word-literal stream', 'corpus': False, 'wordlit': True})
+
     # ---------------------------------------------------------------- implementation
     def script_of(c):
         s = ('se ic\n' if c['ic'] else 'se noic\n') + ''.join(cm['text'] + '\n' for cm in c['cmds']) + '%p\nw o\nq!\n'
@@ -1292,6 +1324,8 @@ def run(ctx):
                 res.count('interval stream: a run longer than m whose length is not a multiple of m')
         if c.get('bslash'):
             res.count('backslash stream, %s' % ('with g' if c['cmds'][0]['g'] else 'without g'))
+        if c.get('wordlit'):
+            res.count('word-literal stream, %s' % ('with g' if c['cmds'][0]['g'] else 'without g'))
         if c.get('addr'):
             tr = []
             reference(c, False, tr)
